@@ -349,6 +349,9 @@ def _run_shard(ctx):
         check_text(ctx, "<a>\n" + s + "\n</a>\n", "wrapped")
     for s in c03.enum_lines(ctx, bound - 2, 10):
         check_text(ctx, "<" + s + ">\nk v\n</" + s + ">\n", "header")
+    for idx, (fam, text) in enumerate(c03.size_texts()):
+        if ctx.mine(idx):
+            check_text(ctx, text, fam)
     pool = c03.POOL_QUICK if ctx.quick else c03.POOL_THOROUGH
     maxlines = 3 if ctx.quick else 4
     idx = 0
